@@ -169,6 +169,8 @@ func main() {
 		err = valuesMain(*prop, *tier, *seed, *out, *replay)
 	case "bind":
 		err = bindMain(*prop, *tier, *seed, *out, *replay)
+	case "batchstress":
+		err = batchStressMain(*prop, *tier, *seed, *out, *replay)
 	case "wait":
 		err = waitMain(*prop, *tier, *seed, *out, *replay)
 	case "lin":
